@@ -86,14 +86,14 @@ func (c17) Meta() core.Meta {
 	}
 	return core.Meta{
 		Level: "exploration",
-		Rule: gran + ". seeded runs: 2-6 tasks x <=6 operations each (" + strings.Join(c17Kinds, ", ") + ") on 1-2 shared AEADs/Blocks, 1-2 shared SM2 key pairs and shared read-only buffers (same key slice to concurrent NewCipher, same nonce/aad/plaintext to concurrent Seals, same ciphertext buffer to concurrent Opens, same public key and signature to concurrent Verifies); independent hash values per task; both implementation paths. " +
+		Rule: gran + ". seeded runs: 2-6 tasks x <=6 operations each (" + strings.Join(c17Kinds, ", ") + ") on 1-2 shared AEADs/Blocks, 1-2 shared SM2 key pairs and shared read-only buffers (same key slice to concurrent NewCipher, same nonce/aad/plaintext to concurrent Seals, same ciphertext buffer to concurrent Opens, same public key and signature to concurrent Verifies); independent hash values per task; both implementation paths; under L2 one run in 40 is a crowd: 66-110 tasks with one or two SM2 calls each on 54-110 distinct key pairs, switching every 16-256 yield points, so that dozens of calls over dozens of keys are in flight at once. " +
 			"non-trivial = at least one context switch happened while another task still had work; distinct = distinct (path, per-task op-kind sequences, switch-count bucket); distinct_interleavings = distinct recorded schedules (switch positions and targets)",
 		Components: map[string]string{"sm4 Block/AEAD (amd64 assembly and portable)": "real", "sm2 Sign/Verify/DerivePublic/GenerateKey": "real", "sm3": "real", "crypto/cipher glue": "real",
 			"caller threads": "stub (cooperative tasks under the seeded scheduler; one runs at a time)", "randomness sources": "stub (per-call simulated devices)", "arm64 assembly": "not run",
 			"oracle": "serial pre-pass of the same calls on private copies and twin objects; snapshots of shared buffers; under L2 additionally ThreadSanitizer reports"},
 		Assumptions: []string{"tasks are scheduled one at a time (sequentially consistent interleavings only; no weak-memory effects)", "L1/L2 cannot split the assembly routines (that is L3's job)",
 			"shared objects are constructed before the tasks start"},
-		FaultKinds: []string{"context-switch", "shared-ciphertext-opened-concurrently", "shared-key-slice", "shared-aead", "shared-sm2-key"},
+		FaultKinds: []string{"context-switch", "shared-ciphertext-opened-concurrently", "shared-key-slice", "shared-aead", "shared-sm2-key", "crowd"},
 		ProbeNames: []string{"switches>=1", "switches>=8", "tasks>=4", "same-ct-opened-by>=2-tasks", "same-aead-used-by>=2-tasks", "same-sm2key-used-by>=2-tasks"},
 		StepUnit:   "scheduler yield points visited",
 	}
@@ -143,8 +143,33 @@ func (c17) Generate(idx int, r *core.Rand, tier string) core.Script {
 		focus = w.Weighted(weights...)
 	}
 	long := !L2Enabled && w.Chance(1, 100) // long-lived tasks
+	// crowd runs (statement-level interleaving only): 66-110 tasks with one or two SM2 calls
+	// each, nearly every task on a key of its own, so that dozens of calls are in flight at
+	// once over dozens of distinct keys - the shape that exhausts a fixed pool of scratch
+	// slots or the capacity of a per-key cache in the middle of somebody's call
+	crowd := L2Enabled && w.Chance(1, 40)
+	if crowd {
+		nt = w.Range(66, 110)
+		s.NKeys = w.Range(nt-12, nt)
+		focus, long = -1, false
+	}
+	crowdKinds := []string{"SignHashed", "SignHashed", "SignHashed", "VerifyHashed", "VerifyHashed", "VerifyHashed", "Verify", "Verify", "DerivePublic", "GenerateKey", "SignFail"}
+	if crowd && w.Chance(1, 2) { // single-kind crowd
+		crowdKinds = []string{crowdKinds[w.Intn(len(crowdKinds)-3)]}
+	}
 	for t := 0; t < nt; t++ {
 		var ops []c17Op
+		if crowd {
+			for i := w.PickInt(1, 1, 1, 2); i > 0; i-- {
+				op := c17Op{Kind: crowdKinds[w.Intn(len(crowdKinds))], K: t % s.NKeys, Seed: w.Uint64(), Dst: dstSpec{Mode: "nil"}}
+				if w.Chance(1, 10) {
+					op.K = w.Intn(s.NKeys)
+				}
+				ops = append(ops, op)
+			}
+			s.Tasks = append(s.Tasks, ops)
+			continue
+		}
 		n := w.Range(1, 6)
 		if L2Enabled {
 			n = w.Range(1, 3)
@@ -185,6 +210,9 @@ func (c17) Generate(idx int, r *core.Rand, tier string) core.Script {
 		s.Den = sc.PickInt(16, 64, 64, 256, 256, 1024, 2048)
 		if focus >= 0 {
 			s.Den = sc.PickInt(8, 16, 32, 64, 128)
+		}
+		if crowd {
+			s.Den = sc.PickInt(16, 32, 64, 128, 256)
 		}
 	} else {
 		s.Den = sc.PickInt(1, 1, 2, 2, 3, 4)
@@ -588,6 +616,13 @@ func (c17) Execute(sc core.Script, keep bool) *core.Result {
 	}
 	if len(s.Tasks) >= 4 {
 		res.Probes["tasks>=4"]++
+	}
+	if len(s.Tasks) >= 64 {
+		res.Probes["tasks>=64"]++
+		res.Faults["crowd"]++
+		if nsw >= 256 {
+			res.Probes["tasks>=64,switches>=256"]++
+		}
 	}
 	bucket := "0"
 	switch {
